@@ -204,11 +204,11 @@ func (g *Gen) fill(kind string, p *Program) Op {
 		op.I = []int64{int64("eEfgG"[g.R.N(5)]), g.precArg()}
 	case "AppendFn":
 		op.D = []string{d()}
-		op.I = []int64{int64("eEfgG"[g.R.N(5)]), g.precArg(), g.slot(nBufs)}
+		op.I = []int64{int64("eEfgG"[g.R.N(5)]), g.precArg(), g.slot(nBufs), int64(g.R.N(3) / 2)}
 	case "AppendM":
 		op.D = []string{d()}
 		op.S = []string{g.Spec(verbsF+"v", g.maxWP())}
-		op.I = []int64{g.slot(nBufs)}
+		op.I = []int64{g.slot(nBufs), int64(g.R.N(3) / 2)}
 	case "Sprintf":
 		op.D = []string{d()}
 		op.S = []string{g.Spec(verbsF+"v", g.maxWP())}
